@@ -84,7 +84,7 @@ def harness(tier, seed):
             if m[i].max() == 0:
                 j = (i + 1) % n
                 m[i, j] = m[j, i] = 1
-        inst = Instance(f"rnd{r}", 0, m)
+        inst = Instance("rnd", 0, m)      # one name for all: nothing may be keyed by the instance name
         for ea, cls in ((True, TSPEA1p1revn), (False, TSPFEA1p1revn)):
             if not ea and inst.tour_length_upper_bound > 10 ** 6:
                 continue    # the FEA allocates a table of upper_bound + 1 counters
